@@ -35,7 +35,7 @@ def run(ctx):
 
     def work(u):
         rng = rngs[u.name]
-        if u.kernel_rejected:
+        if u.kernel_rejected and u.name.startswith("rs"):
             with lock:
                 stats["kernel_rejected"] += 1
             return
